@@ -92,9 +92,10 @@ def relevant(spec, opline, difline):
             if re.match(pat, opline):
                 return True
         return False
-    k = line_key(difline)
+    # the observation keys of a property are PREFIXES of observation lines (`m bank hub`, `del `,
+    # `tok.`, `hub.hist` ...): match them against the whole line
     for pre in spec.get('keys', ['']):
-        if k.startswith(pre):
+        if difline.startswith(pre):
             return True
     return False
 
